@@ -20,6 +20,10 @@ Sub-spaces (each enumerated completely, simplest first; Q = quick bound, T = tho
   analysis   `tapinfo -a` and `tap2sna --tape-analysis` (tool-level pass over the seam): time and
              EAR level of every tone / pulse / data / tail / pause line
   bin2tap    bin2tap.main -> .tap and .pzx of the same binary parse to the same blocks / edges
+  loops      TZX loop repetition count in {1,2,255,256,257,511,512,65535} (both sides of every byte
+             boundary of the 16-bit field) x 3 tiny bodies x {nothing, a pulse} after the loop, in the
+             signal (all start/stop/skip; 65535: <= 1 non-default option in Q), tapinfo and analysis
+             (65535: default selection only) sub-spaces
 
 Seam: tap2sna._get_tape_blocks (the conversion tap2sna itself uses) -> tape.get_edges.
 """
@@ -170,6 +174,27 @@ def pzx_catalogue(mix, reduced=False):
         keep = (1, 2, 4, 6, 8, 11, 12, 13, 14, 16, 17, 18, 19, 24, 25, 26, 29, 31, 32)
         return [[items[i]] for i in keep]
     return [[b] for b in items] + [std]
+
+
+LOOP_REPS = (1, 2, 255, 256, 257, 511, 512, 65535)    # both sides of every byte boundary of the 16-bit count
+LOOP_HEAVY = 512                                        # above this many repetitions the option nesting is capped
+
+
+def loop_tapes():
+    """TZX loops: repetition count x tiny body x what follows the loop.  The bodies are one
+    short pulse (odd number of pulses per repetition: the level after the loop depends on the
+    parity of the count), a two-pulse tone, and a pulse followed by a 1 ms pause."""
+    bodies = ([{'k': 't13', 'pulses': [855]}], [{'k': 't12', 'width': 667, 'count': 2}],
+              [{'k': 't13', 'pulses': [735]}, {'k': 't20', 'pause': 1}])
+    afters = ([], [{'k': 't12', 'width': 1710, 'count': 1}])
+    for reps in LOOP_REPS:
+        for body in bodies:
+            for after in afters:
+                yield [{'k': 't24', 'n': reps}] + [dict(b) for b in body] + [{'k': 't25'}] + [dict(b) for b in after]
+
+
+def max_loop_reps(blocks):
+    return max([b['n'] for b in blocks if b['k'] == 't24'] or [0])
 
 
 def select_cfgs(n):
@@ -921,6 +946,10 @@ def run_analysis_unit(stats, uidx, fmt, blocks):
     kinds = [b['k'] for b in blocks]
     machines = (48, 128) if _has_cond_stop(blocks) else (48,)
     sel = [(1, 0, ())] + [c for c in contiguous_cfgs(n) if (c[0] != 1) + (c[1] != 0) + (c[2] != ()) == 1]
+    if max_loop_reps(blocks) > LOOP_HEAVY:
+        sel = sel[:1]       # 65535 listing lines per run: no start/stop/skip nesting
+    if max_loop_reps(blocks) >= 256:
+        stats.counters['loop_count_ge_256_analysis'] += 1
     cases = []
     for start, stop, skip in sel:
         if fmt == 'tzx' and not tf.loop_shape_ok(fmt, [kinds[i - 1] for i in tf.selected_numbers(n, start, stop, skip)]):
@@ -992,10 +1021,18 @@ def units(tier, seed):
         yield ('signal', name, fmt, blocks, None)
     for name, fmt, blocks in seq_units(tier, mix):
         yield ('signal', name, fmt, blocks, 'all')
+    # TZX loop repetition counts: every start/stop/skip setting up to LOOP_HEAVY repetitions;
+    # above that (65535) every setting with at most one non-default option (T: every setting)
+    for blocks in loop_tapes():
+        yield ('signal', 'loops', 'tzx', blocks, 'all' if T or max_loop_reps(blocks) <= LOOP_HEAVY else 'dev1')
     for fmt, blocks in tapinfo_units(tier, mix):
         yield ('tapinfo', fmt, blocks)
+    for blocks in loop_tapes():
+        yield ('tapinfo', 'tzx', blocks)
     for fmt, blocks in analysis_units(tier, mix):
         yield ('analysis', fmt, blocks)
+    for blocks in loop_tapes():
+        yield ('analysis', 'tzx', blocks)
 
 
 _CFG_CACHE = {}
@@ -1011,8 +1048,13 @@ def run_unit(stats, uidx, unit):
     space = unit[0]
     if space == 'signal':
         _, name, fmt, blocks, mode = unit
+        if max_loop_reps(blocks) >= 256:
+            stats.counters['loop_count_ge_256_signal'] += 1
         if mode == 'all':
             run_signal_unit(stats, uidx, name, fmt, blocks, _sel_cfgs(len(blocks)))
+        elif mode == 'dev1':
+            run_signal_unit(stats, uidx, name, fmt, blocks,
+                            [c for c in _sel_cfgs(len(blocks)) if (c[0] != 1) + (c[1] != 0) + (c[2] != ()) <= 1])
         else:
             run_signal_unit(stats, uidx, name, fmt, blocks, [(1, 0, ())], fes=(0, 1, 1000))
     elif space == 'roundtrip':
@@ -1048,6 +1090,8 @@ def run_unit(stats, uidx, unit):
         run_flag_unit(stats, uidx, unit[1], unit[2])
     elif space == 'tapinfo':
         _, fmt, blocks = unit
+        if max_loop_reps(blocks) >= 256:
+            stats.counters['loop_count_ge_256_tapinfo'] += 1
         path = tools.write_file('i.' + fmt, tf.write_file(fmt, blocks))
         n = len(blocks)
         cfgs = contiguous_cfgs(n) if n <= 3 else [c for c in contiguous_cfgs(n) if (c[0] != 1) + (c[1] != 0) + (c[2] != ()) <= 1]
@@ -1076,7 +1120,7 @@ REQUIRED_GUARDS = [
     'table_path', 'zero_merge_path', 'used_bits_lt8', 'tail_pulse', 'final_tail_dropped', 'polarity_adjust', 'pause_played',
     'level_function_only', 'decoded_blocks', 'unsupported_error', 'start_gt1', 'stop_set', 'skip_set', 'polarity1',
     'first_edge_nonzero', 'excluded_cut_loop', 'flag_bytes', 'roundtrip_lists', 'equiv_sets', 'bin2tap_runs', 'tapinfo_runs',
-    'analysis_runs', 'units_signal',
+    'analysis_runs', 'units_signal', 'loop_count_ge_256_signal', 'loop_count_ge_256_tapinfo', 'loop_count_ge_256_analysis',
 ]
 
 
@@ -1093,14 +1137,17 @@ def run(tier, seed):
         bound='sequences of <= {} catalogue items ({}) x all start/stop/skip x polarity {{0,1}} x first-edge {{0,1000}}; '
               'TZX 0x11 parameters: all deviations <= {} from the ROM defaults; 0x14 / PZX PULS (<= {} entries) / PZX DATA '
               '(bit sequences of <= {} pulses) complete products; all 256 flag bytes; block lists of <= {} data strings for '
-              'round trip and format equivalence; data byte 0x{:02X} (seed slice {})'.format(
+              'round trip and format equivalence; TZX loop counts {{1,2,255,256,257,511,512,65535}} x 3 bodies x 2 continuations (65535: {}); data byte 0x{:02X} (seed slice {})'.format(
                   3 if T else 2, 'length 3 over the reduced catalogue' if T else 'full catalogue', 3 if T else 2, 3 if T else 2,
-                  3 if T else 2, 3 if T else 2, MIXES[seed % len(MIXES)], seed % len(MIXES)),
+                  3 if T else 2, 3 if T else 2,
+                  'all settings; analysis listing with the default selection only' if T else
+                  'settings with <= 1 non-default start/stop/skip option; analysis listing with the default selection only',
+                  MIXES[seed % len(MIXES)], seed % len(MIXES)),
         assumptions=ASSUMPTIONS,
         required_guards=REQUIRED_GUARDS,
         extra={'catalogue_items': {'tzx': len(tzx_catalogue(0xA5)), 'pzx': len(pzx_catalogue(0xA5)),
                                    'tzx_reduced': len(tzx_catalogue(0xA5, True)), 'pzx_reduced': len(pzx_catalogue(0xA5, True))},
-               'sub_spaces': ['roundtrip', 'equiv', 'bin2tap', 'flags', 'params', 'seq', 'tapinfo', 'analysis'],
+               'sub_spaces': ['roundtrip', 'equiv', 'bin2tap', 'flags', 'params', 'seq', 'loops', 'tapinfo', 'analysis'],
                'units_per_space': {k[6:]: v for k, v in sorted(stats.counters.items()) if k.startswith('units_')}},
     )
     return stats, meta
